@@ -34,7 +34,8 @@ Example C01_nonvacuous :
   existsb (fun e => match e with Note (NRcpt _ RNotLocal) => true | _ => false end)
     (run_session {| o_helo := fun _ => true; o_addr := fun _ _ => AP_ok [120]%N None RNotLocal;
                     o_ext := fun _ => Ext_ok 0 0 None; o_relay := 1%Z; o_mx := fun _ => 0; o_qq := fun _ => QQ_ok;
-                    o_databytes := 0%N; o_liphost := []; o_check2822 := false; o_authperm := false; o_auth := fun _ => Auth_multi; o_trace := fun _ _ _ _ _ _ => [] |}
+                    o_databytes := 0%N; o_liphost := []; o_check2822 := false; o_authperm := false; o_auth := fun _ => Auth_multi; o_trace := fun _ _ _ _ _ _ => [];
+              o_submission := false; o_subm_date := []; o_subm_stamp := []; o_msgidhost := [] |}
         [ [72;69;76;79;32;120;13;10]; [77;65;73;76;32;70;82;79;77;58;60;97;62;13;10];
           [82;67;80;84;32;84;79;58;60;98;62;13;10] ]%N) = true.
 Proof. vm_compute. reflexivity. Qed.
@@ -44,7 +45,8 @@ Example C01_nonvacuous_auth :
   let o := {| o_helo := fun _ => true; o_addr := fun _ _ => AP_ok [120]%N None RNotLocal;
               o_ext := fun _ => Ext_ok 0 0 None; o_relay := 0%Z; o_mx := fun _ => 0; o_qq := fun _ => QQ_ok;
               o_databytes := 0%N; o_liphost := []; o_check2822 := false; o_authperm := true;
-              o_auth := fun _ => Auth_ok [117]%N; o_trace := fun _ _ _ _ _ _ => [] |} in
+              o_auth := fun _ => Auth_ok [117]%N; o_trace := fun _ _ _ _ _ _ => [];
+              o_submission := false; o_subm_date := []; o_subm_stamp := []; o_msgidhost := [] |} in
   let ehlo := [69;72;76;79;32;120;13;10]%N in let auth := [65;85;84;72;32;80;76;65;73;78;32;120;13;10]%N in
   let mail := [77;65;73;76;32;70;82;79;77;58;60;97;62;13;10]%N in let rcpt := [82;67;80;84;32;84;79;58;60;98;62;13;10]%N in
   existsb (fun e => match e with Note (NRcpt _ RNotLocal) => true | _ => false end) (run_session o [ehlo; auth; mail; rcpt]) = true
